@@ -143,6 +143,24 @@ func Step(t *testing.T, sc *Scenario, s *State, ev Event) *StepOut {
 	return out
 }
 
+// StepWithFault executes one event with a fault decided per API call; a "stop" fault also models the process
+// restart that follows (fresh controller instance: empty in-memory back-off).
+func StepWithFault(t *testing.T, sc *Scenario, s *State, ev Event, fn func(idx int, c *Call) string) *StepOut {
+	var out *StepOut
+	InBubble(t, s.Now, func() {
+		l := NewLive(s, sc.Cfg)
+		l.API.FaultFn = fn
+		out = Apply(l, s, ev, sc.Tpls)
+	})
+	for _, c := range out.Log {
+		if c.Fault == FaultStop {
+			out.Next.Backoff = nil
+			break
+		}
+	}
+	return out
+}
+
 // Explore runs the search to completion (or to the caps / deadline) and fills the counters.
 func (e *Explorer) Explore() {
 	if e.Workers == 0 {
